@@ -30,8 +30,35 @@ class PrivHooks(QHooks):
     def prim_fork(self, E, x, args):
         return [Outcome(ret=fs(0), sets={'$child': fs(1)}, log='fork: child'), Outcome(ret=fs(-1)), Outcome(ret=fs(4711))]
 
+    # the record qmail-lspawn works on: six NUL-terminated fields  user uid gid home dash ext
+    RECORD = b'u\x0011\x0022\x00h\x00-\x00e\x00'
+    FIELD_AT = {0: 0, 2: 1, 5: 2, 8: 3, 10: 4, 12: 5}
+
+    def tracked_global(self, path):
+        return path.startswith('G:nughde') or path.startswith('NU[') or path.startswith('$')
+
+    def precise_arith(self, path):
+        return True
+
+    def materialize(self, E, path):
+        if path == 'G:nughde.s':
+            return fs(('&', 'NU[0]'))
+        if path == 'G:nughde.len':
+            return fs(len(self.RECORD))
+        if path.startswith('NU['):
+            k = int(path[3:-1])
+            return fs(self.RECORD[k]) if k < len(self.RECORD) else TOP
+        return TOP
+
+    @staticmethod
+    def _off(v):
+        a = next(iter(v)) if v is not TOP and len(v) == 1 else None
+        return int(a[1][3:-1]) if isinstance(a, tuple) and a[0] == '&' and a[1].startswith('NU[') else None
+
     def prim_scan_ulong(self, E, x, args):
-        k = g1(E, '$field', 0)
+        # the number is whatever field of the record the pointer addresses
+        off = self._off(args[0])
+        k = self.FIELD_AT.get(off, '?') if off is not None else '?'
         up = None
         if args[1] is not TOP and len(args[1]) == 1:
             (a,) = args[1]
@@ -41,10 +68,15 @@ class PrivHooks(QHooks):
         return [Outcome(ret=TOP, sets=st)]
 
     def prim_byte_chr(self, E, x, args):
-        # one more NUL-separated field consumed
-        if x.args[2].const == 0:
-            E.set('$field', fs(min(g1(E, '$field', 0) + 1, 9)))
-        return [Outcome(ret=TOP)]
+        off = self._off(args[0])
+        n = next(iter(args[1])) if args[1] is not TOP and len(args[1]) == 1 else None
+        c = next(iter(args[2])) if args[2] is not TOP and len(args[2]) == 1 else None
+        if off is None or not isinstance(n, int) or not isinstance(c, int):
+            return [Outcome(ret=TOP)]
+        for i in range(n):
+            if off + i < len(self.RECORD) and self.RECORD[off + i] == (c & 255):
+                return [Outcome(ret=fs(i))]
+        return [Outcome(ret=fs(n))]
 
     def prim_nughde_get(self, E, x, args):
         return [Outcome(ret=TOP)]
